@@ -250,7 +250,10 @@ func (m *c19Machine) setup(c *c19Case, first int, out *c19Out) *c19Console {
 		for i := 0; i < 256; i++ { // a random palette, set through the driver's non-replacing setter
 			cons.setPaletteColor(uint8(i), color.RGBA{R: uint8(rng.Intn(256)), G: uint8(rng.Intn(256)), B: uint8(rng.Intn(256))}, false)
 		}
-		lw := uint32(1 + rng.Intn(int(c.W)))
+		lw := uint32(0)
+		if c.W > 0 {
+			lw = uint32(1 + rng.Intn(int(c.W)))
+		}
 		lg := &logo.Image{Width: lw, Height: c.OffY, Align: logo.Alignment(c.Align % 3), TransparentIndex: 0,
 			Palette: []color.RGBA{{R: 255, B: 255}, {R: 10, G: 200, B: 30}, {R: 99, G: 98, B: 97}}}
 		lg.Data = make([]uint8, lw*c.OffY)
@@ -523,7 +526,7 @@ func (m *c19Machine) runCase(idx int, c *c19Case, from int, out *c19Out) {
 // ---------------------------------------------------------------- random cases (leg T)
 
 func c19Ext(rng *rand.Rand, max uint32) uint64 {
-	switch rng.Intn(18) {
+	switch rng.Intn(24) {
 	case 0:
 		return 0
 	case 1:
@@ -540,8 +543,52 @@ func c19Ext(rng *rand.Rand, max uint32) uint64 {
 		return 0xffffffff - uint64(rng.Intn(int(max)+2))
 	case 7:
 		return 0x100000000 - uint64(max) + uint64(rng.Intn(3)) - 1
+	case 8:
+		return uint64(rng.Uint32()) // anywhere in the 32-bit range
+	case 9: // around the 16-bit and the sign boundary; a valid-looking low half under a non-zero high half
+		return []uint64{0xffff, 0x10000, 0x7fffffff, 0x80000001, 0x10000 + uint64(rng.Intn(int(max)+2)),
+			uint64(1+rng.Intn(0xffff))<<16 | uint64(rng.Intn(int(max)+2))}[rng.Intn(6)]
 	default:
+		if max == 0 {
+			return 1
+		}
 		return uint64(1 + rng.Intn(int(max)))
+	}
+}
+
+// c19RandomLayout draws a colour-mask layout for a pixel of the given number of usable bits: three non-overlapping
+// fields of 0-8 bits (up to 12 in a 32-bit pixel) in random order with random gaps.
+func c19RandomLayout(rng *rand.Rand, bits int) [6]uint8 {
+	for {
+		var size [3]int
+		for i := range size {
+			size[i] = rng.Intn(9)
+			if bits == 32 && rng.Intn(4) == 0 {
+				size[i] = 9 + rng.Intn(4)
+			}
+			if rng.Intn(3) > 0 && size[i] < 4 {
+				size[i] = 4 + rng.Intn(5)
+			}
+		}
+		total := size[0] + size[1] + size[2]
+		if total > bits {
+			continue
+		}
+		order := rng.Perm(3)
+		slack := bits - total
+		var ci [6]uint8
+		pos := 0
+		for _, k := range order {
+			gap := 0
+			if slack > 0 && rng.Intn(2) == 0 {
+				gap = rng.Intn(slack + 1)
+			}
+			pos += gap
+			slack -= gap
+			ci[2*k], ci[2*k+1] = uint8(pos), uint8(size[k])
+			pos += size[k]
+		}
+		return ci
 	}
 }
 
@@ -561,11 +608,19 @@ func c19RandomCase(id int, rng *rand.Rand, nCalls int, hi32 bool) *c19Case {
 	if rng.Intn(5) == 0 {
 		c.Cons = "vga"
 		c.W, c.H = uint32(1+rng.Intn(80)), uint32(1+rng.Intn(25))
-		switch rng.Intn(4) {
-		case 0:
+		switch rng.Intn(8) {
+		case 0, 1:
 			c.W, c.H = uint32(1+rng.Intn(5)), uint32(1+rng.Intn(4))
-		case 1:
+		case 2, 3:
 			c.W, c.H = 80, 25 // the real VGA mode 3 grid
+		case 4:
+			c.W, c.H = uint32(81+rng.Intn(52)), uint32(26+rng.Intn(35)) // larger text modes, up to 132x60
+		case 5: // a grid without cells
+			if rng.Intn(2) == 0 {
+				c.W = 0
+			} else {
+				c.H = 0
+			}
 		}
 		c.Pitch, c.Gw, c.Gh = c.W, 1, 1
 		cols, rows = c.W, c.H
@@ -573,21 +628,12 @@ func c19RandomCase(id int, rng *rand.Rand, nCalls int, hi32 bool) *c19Case {
 		c.Cons = "fb"
 		c.Bpp = []uint32{8, 15, 16, 24, 32}[rng.Intn(5)]
 		ls := c19Layouts[c.Bpp]
-		for {
-			c.Ci = ls[rng.Intn(len(ls))]
-			top := c.Ci[0] + c.Ci[1]
-			if c.Ci[2]+c.Ci[3] > top {
-				top = c.Ci[2] + c.Ci[3]
-			}
-			if c.Ci[4]+c.Ci[5] > top {
-				top = c.Ci[4] + c.Ci[5]
-			}
-			if hi32 || top <= 24 {
-				break
-			}
+		c.Ci = ls[rng.Intn(len(ls))]
+		if c.Bpp != 8 && rng.Intn(2) == 0 {
+			c.Ci = c19RandomLayout(rng, int(c.Bpp))
 		}
+		_ = hi32
 		Bpp := (c.Bpp + 1) >> 3
-		c.OffY = []uint32{0, 5, 13}[rng.Intn(3)]
 		switch rng.Intn(6) {
 		case 0:
 			c.Font, c.Gw, c.Gh = "terminus8x16", 8, 16
@@ -596,16 +642,34 @@ func c19RandomCase(id int, rng *rand.Rand, nCalls int, hi32 bool) *c19Case {
 		case 2:
 			c.Font, c.Gw, c.Gh = "terminus14x28", 14, 28
 		default:
-			c.Gw, c.Gh = uint32(8+rng.Intn(9)), uint32(2+rng.Intn(6))
+			c.Gw, c.Gh = uint32(8+rng.Intn(9)), uint32(1+rng.Intn(7))
 		}
-		// width 8-70 px and height 4-60 px, enlarged where needed so that the grid has at least one cell
+		// logo height: the usual 0/5/13 or anything else
+		c.OffY = []uint32{0, 5, 13}[rng.Intn(3)]
+		if rng.Intn(3) == 0 {
+			c.OffY = uint32(rng.Intn(24))
+		}
+		// width 8-70 px and height 4-60 px (taller where font and logo need it), so that the grid has at least one cell ...
 		c.W = c.Gw + uint32(rng.Intn(int(71-c.Gw)))
+		if rng.Intn(15) == 0 {
+			c.W = 71 + uint32(rng.Intn(130)) // now and then a wider screen, up to 200 px
+		}
 		minH := c.OffY + c.Gh
 		maxH := uint32(60)
 		if minH > maxH {
 			maxH = minH + 3
 		}
 		c.H = minH + uint32(rng.Intn(int(maxH-minH+1)))
+		// ... or, now and then, a framebuffer without any cell: narrower than a glyph, or no room for a text line
+		// below the logo (down to a logo that fills the framebuffer, and an empty framebuffer)
+		switch rng.Intn(12) {
+		case 0:
+			c.W = uint32(rng.Intn(int(c.Gw)))
+		case 1:
+			c.H = c.OffY + uint32(rng.Intn(int(c.Gh)))
+		case 2:
+			c.H = c.OffY
+		}
 		c.Pitch = c.W*Bpp + uint32(rng.Intn(18))
 		if rng.Intn(6) == 0 {
 			c.Pitch = c.W * Bpp
